@@ -151,15 +151,15 @@ def numbering_hook(ctx, dev) -> None:
         ctx.rep.refuted(rule, f"{dev.name}._get_well_position", f"{dev.name} does not override the numbering hook", where=dev.module.relpath)
         return
     fv = ctx.fv(f, dev)
-    rets = [s for s in own_walk(f.node) if isinstance(s, ast.Return)]
+    rets = [t for n, t in fv.returns()]
     ok = False
     target = ""
-    if len(rets) == 1 and isinstance(rets[0].value, ast.Call):
-        cal = ctx.prog.resolve_call(f, rets[0].value, fv.env)
+    if len(rets) == 1 and isinstance(rets[0], ast.Call):
+        cal = ctx.prog.resolve_call(f, rets[0], fv.env)
         if cal.kind == "func" and cal.func.name == "get_well_position":
             devpkg = dev.module.name.rsplit(".", 1)[0]
             target = cal.func.qualname
-            args = rets[0].value.args
+            args = rets[0].args
             ok = cal.func.module.name.startswith(devpkg) and len(args) == 2 and all(isinstance(a, ast.Name) for a in args) and [a.id for a in args] == f.params[1:3]
     ctx.rep.check(ok, rule, f"{dev.name}._get_well_position", f"delegates to {target}",
                   f"{dev.name}._get_well_position is not a plain delegation to the device package's own get_well_position(labware, well) (resolved: {target or 'unresolved'})", where=f.where())
